@@ -3,8 +3,80 @@
 //!   verif-native run <file.st> [cycles]   -> prints compile verdict, per-cycle errors, all globals
 use trust_runtime::harness::TestHarness;
 
+/// crash-replay <spec.json>: performs the first `crash` file-system effects of the save routine (and a
+/// partial write if the crash falls inside a write) on a temp dir, using the REAL encoder's bytes, then
+/// calls the REAL FileRetainStore::load. exit 1 = load() returns neither the old nor the new snapshot.
+fn crash_replay(spec_path: &str) -> i32 {
+    use trust_runtime::retain::{FileRetainStore, RetainStore};
+    use trust_runtime::value::Value;
+    use trust_runtime::RetainSnapshot;
+    let spec = std::fs::read_to_string(spec_path).expect("spec");
+    // minimal JSON picking (no serde in this crate): effects as [["create","P"],...]
+    let effects: Vec<Vec<String>> = {
+        let start = spec.find("\"effects\"").unwrap();
+        let open = spec[start..].find("[[").unwrap() + start;
+        let close = spec[open..].find("]]").unwrap() + open + 2;
+        spec[open + 1..close - 1]
+            .split("],")
+            .map(|e| e.trim_matches(|c| c == '[' || c == ']' || c == ' ').split(',').map(|t| t.trim().trim_matches('"').to_string()).collect())
+            .collect()
+    };
+    let num_of = |key: &str| -> usize {
+        let i = spec.find(key).unwrap() + key.len();
+        spec[i..].trim_start_matches(|c: char| c == '"' || c == ':' || c == ' ').chars().take_while(|c| c.is_ascii_digit()).collect::<String>().parse().unwrap()
+    };
+    let crash = num_of("\"crash\"");
+    let (pn, pd) = (num_of("\"partial_fraction_num\""), num_of("\"partial_fraction_den\"").max(1));
+    let dir = std::env::temp_dir().join(format!("verif_crash_{}", std::process::id()));
+    let _ = std::fs::remove_dir_all(&dir);
+    std::fs::create_dir_all(&dir).unwrap();
+    let p = dir.join("retain.bin");
+    let t = dir.join("retain.bin.tmp");
+    let mut old = RetainSnapshot::default();
+    old.insert("a", Value::Int(1));
+    let mut new = RetainSnapshot::default();
+    new.insert("a", Value::Int(2));
+    new.insert("b", Value::LInt(-9));
+    FileRetainStore::new(&p).store(&old).expect("store old");
+    let p2 = dir.join("new_image.bin");
+    FileRetainStore::new(&p2).store(&new).expect("store new");
+    let new_bytes = std::fs::read(&p2).unwrap();
+    let file_of = |r: &str| if r == "P" { p.clone() } else { t.clone() };
+    for (i, e) in effects.iter().enumerate() {
+        if i > crash { break; }
+        let inside = i == crash;   // the effect during which the process dies (only a write is observable)
+        match e[0].as_str() {
+            "create" => { if !inside { std::fs::File::create(file_of(&e[1])).unwrap(); } }
+            "write" => {
+                let n = if inside { new_bytes.len() * pn / pd } else { new_bytes.len() };
+                if !inside || n > 0 {
+                    use std::io::Write;
+                    let mut f = std::fs::OpenOptions::new().write(true).open(file_of(&e[1])).unwrap();
+                    f.write_all(&new_bytes[..n]).unwrap();
+                }
+            }
+            "sync" => {}
+            "rename" => { if !inside { std::fs::rename(file_of(&e[1]), file_of(&e[2])).unwrap(); } }
+            _ => { println!("unknown effect {e:?}"); return 2; }
+        }
+    }
+    let loaded = FileRetainStore::new(&p).load();
+    let verdict = match &loaded {
+        Ok(s) if *s == old => "old",
+        Ok(s) if *s == new => "new",
+        Ok(_) => "OTHER",
+        Err(_) => "ERROR",
+    };
+    println!("crash after {crash} effect(s) of {effects:?} (partial {pn}/{pd}): load() = {verdict} {:?}", loaded.as_ref().err());
+    let _ = std::fs::remove_dir_all(&dir);
+    if verdict == "old" || verdict == "new" { 0 } else { 1 }
+}
+
 fn main() {
     let args: Vec<String> = std::env::args().collect();
+    if args.len() >= 3 && args[1] == "crash-replay" {
+        std::process::exit(crash_replay(&args[2]));
+    }
     if args.len() < 3 || args[1] != "run" {
         eprintln!("usage: verif-native run <file.st> [cycles]");
         std::process::exit(2);
